@@ -43,7 +43,7 @@ import (
 
 type Call struct {
 	At   int    `json:"at"`
-	Kind string `json:"kind"` // run | runif | cancel | cancelif | ctx | dup | exists | resched (CancelJob, then ScheduleJob of the name, back to back)
+	Kind string `json:"kind"` // run | runif | cancel | cancelif | cancelall (CancelJobs with the script's prefix) | ctx | dup | exists | resched (CancelJob, then ScheduleJob of the name, back to back)
 	// Cctx: the CALLER's context handed to RunJob / RunJobIfExists / CancelJob / CancelJobIfExists / JobExists
 	// (it is not the job's context): "" live | done (cancelled before the call) | expired (deadline already
 	// passed) | race (cancelled by another goroutine while the call is made).  The scheduler's contract does not
@@ -66,10 +66,51 @@ type Script struct {
 	// RtErr: when the instances are used up runtimeFunc returns an error of its own instead of
 	// scheduler.ErrNoMoreInstances (the goroutine's other way out of its loop; same tidy-up, same model script).
 	RtErr bool `json:"rterr,omitempty"`
+	// Prefix: what the "cancelall" calls hand to CancelJobs: a prefix of the job's name ("" = "job"; "-" = the
+	// empty prefix).  For the model such a call is a CancelJobIfExists (the names are collected in one section of
+	// jobsMutex, CancelJobIfExists is then called on each).
+	Prefix string `json:"prefix,omitempty"`
+	// Sibs: 0, or the number (1..3) of OTHER jobs of the same scheduler whose names have the prefix "job"; three
+	// more whose names do not ("jo", "ajob", "Job") come with them.  One-off and periodic, far in the future.
+	Sibs int `json:"sibs,omitempty"`
+}
+
+// prefixOf: the string handed to CancelJobs.
+func prefixOf(sc Script) string {
+	switch sc.Prefix {
+	case "":
+		return jobName
+	case "-":
+		return ""
+	}
+	return sc.Prefix
+}
+
+// the other jobs of the scheduler instance: the first sc.Sibs of these, and all of the others
+var sibMatching = []string{"job/one-off", "jobs", "job"+"\u00e9"}
+var sibOthers = []string{"jo", "ajob", "Job"}
+
+func sibNames(sc Script) []string {
+	if sc.Sibs <= 0 {
+		return nil
+	}
+	k := sc.Sibs
+	if k > len(sibMatching) {
+		k = len(sibMatching)
+	}
+	return append(append([]string(nil), sibMatching[:k]...), sibOthers...)
+}
+
+type SibObs struct {
+	Name   string `json:"name"`
+	Match  bool   `json:"match"` // the name has the script's prefix
+	Listed bool   `json:"listed"`
+	Runs   int    `json:"runs"`
 }
 
 type TOp struct {
-	Op       string `json:"op"` // sched | run | cancel | exists | list | cancelall
+	Op       string `json:"op"` // sched | run | runif | fire | cancel | cancelif | exists | list | cancelall | cancelpre (CancelJobs(Prefix))
+	Prefix   string `json:"prefix,omitempty"`
 	Name     int    `json:"name,omitempty"`
 	Periodic bool   `json:"periodic,omitempty"`
 	Cctx     string `json:"cctx,omitempty"` // the caller's context of run / cancel / exists / list / cancelall: "" | done | expired
@@ -99,6 +140,8 @@ type Obs struct {
 	Dup       string   `json:"dup"`     // "None": no second ScheduleJob of the name was accepted; "Some true|false": JobExists(name) at the end of the script, while that second job is pending
 	Insts     []int    `json:"insts"`   // periodic: the times returned by runtimeFunc up to the end of the script
 	Foreign   []string `json:"foreign,omitempty"` // texts of the errors outside the scheduler's set that calls returned (those calls read "Foreign" in Calls)
+	ByPrefix  []bool   `json:"byprefix,omitempty"` // per call, from the input: it was CancelJobs(prefix)
+	Sibs      []SibObs `json:"sibs,omitempty"`     // the other jobs of the scheduler instance after the script
 	Count     int      `json:"count"`
 }
 
@@ -152,6 +195,8 @@ type shared struct {
 	running   int
 	dupOK     atomic.Bool // a second ScheduleJob of the name was accepted
 	dup       string
+	byprefix  []bool
+	sibs      []SibObs
 	panicked  bool
 	finished  bool
 	svc       *advanced.Service
@@ -269,6 +314,28 @@ func body(sc Script, st *shared) {
 	if err != nil {
 		panic(err)
 	}
+	// the other jobs of this scheduler instance: far in the future, own functions (they must never run)
+	prefix := prefixOf(sc)
+	sibs := sibNames(sc)
+	sibRuns := make([]atomic.Int64, len(sibs))
+	for k, name := range sibs {
+		f := func(context.Context) { sibRuns[k].Add(1) }
+		var serr error
+		if k%2 == 1 {
+			serr = svc.SchedulePeriodicJob(rootCtx, "c02", name, func(context.Context) (time.Time, error) { return time.Now().Add(time.Hour), nil }, f)
+		} else {
+			serr = svc.ScheduleJob(rootCtx, "c02", name, t0.Add(time.Hour), f)
+		}
+		if serr != nil {
+			panic(serr)
+		}
+	}
+	st.mu.Lock()
+	st.byprefix = nil
+	for _, c := range expand(sc.Calls) {
+		st.byprefix = append(st.byprefix, c.Kind == "cancelall")
+	}
+	st.mu.Unlock()
 	dupCtx, dupCancel := context.WithCancel(rootCtx)
 	defer dupCancel()
 	dupJob := func() error {
@@ -321,6 +388,9 @@ func body(sc Script, st *shared) {
 			case "cancelif":
 				svc.CancelJobIfExists(cctx, jobName)
 				res = "Silent"
+			case "cancelall":
+				svc.CancelJobs(cctx, prefix)
+				res = "Silent"
 			case "ctx":
 				jobCancel()
 				res = "Ret Nil"
@@ -354,7 +424,13 @@ func body(sc Script, st *shared) {
 	// observations after the script; the original job is left alone
 	exists := svc.JobExists(rootCtx, jobName)
 	isListed := listed(svc, jobName)
+	var sibObs []SibObs
+	for k, name := range sibs {
+		sibObs = append(sibObs, SibObs{Name: name, Match: strings.HasPrefix(name, prefix), Listed: svc.JobExists(rootCtx, name) && listed(svc, name),
+			Runs: int(sibRuns[k].Load())})
+	}
 	st.mu.Lock()
+	st.sibs = sibObs
 	nstarts, running, ninsts := len(st.starts), st.inflight, len(st.insts)
 	st.mu.Unlock()
 	var reuseRuns atomic.Int64
@@ -520,7 +596,8 @@ func runRealOnce(sc Script) (o Obs, noisy bool) {
 func collect(st *shared, hung bool) Obs {
 	o := Obs{Calls: append([]string(nil), st.calls...), Starts: append([]int{}, st.starts...), Overlap: st.overlap,
 		Exists: st.exists, Listed: st.listed, Reuse: st.reuse, ReuseRuns: st.reuseRuns, Panic: st.panicked, Running: st.running, Dup: st.dup,
-		Insts: append([]int{}, st.insts...), Foreign: append([]string(nil), st.foreign...)}
+		Insts: append([]int{}, st.insts...), Foreign: append([]string(nil), st.foreign...),
+		ByPrefix: append([]bool(nil), st.byprefix...), Sibs: append([]SibObs(nil), st.sibs...)}
 	sort.Strings(o.Foreign)
 	if hung || !st.finished {
 		o.Hung = true
@@ -551,7 +628,7 @@ func kindTerm(k string) string {
 	switch k {
 	case "run", "runif":
 		return "KRun"
-	case "cancel", "cancelif":
+	case "cancel", "cancelif", "cancelall":
 		return "KCancel"
 	case "ctx":
 		return "KCtx"
@@ -596,6 +673,14 @@ func obsKey(o Obs) string {
 	for _, s := range o.Insts {
 		insts = append(insts, N(uint64(s)))
 	}
+	byprefix := make([]string, 0, len(o.ByPrefix))
+	for _, b := range o.ByPrefix {
+		byprefix = append(byprefix, Bool(b))
+	}
+	sibs := make([]string, 0, len(o.Sibs))
+	for _, sb := range o.Sibs {
+		sibs = append(sibs, Record("sb_match", Bool(sb.Match), "sb_listed", Bool(sb.Listed), "sb_runs", N(uint64(sb.Runs))))
+	}
 	reuse := strings.TrimPrefix(o.Reuse, "Ret ")
 	if reuse == "Hung" || reuse == "Foreign" {
 		reuse = "ErrJobFinalised" // never a result of ScheduleJob: mismatches
@@ -603,7 +688,7 @@ func obsKey(o Obs) string {
 	out := Record("o_calls", List(calls), "o_starts", List(starts), "o_overlap", N(uint64(o.Overlap)),
 		"o_exists", Bool(o.Exists), "o_reuse", reuse, "o_reuse_runs", N(uint64(o.ReuseRuns)), "o_panic", Bool(o.Panic))
 	return "ob_out := " + out + "; ob_listed := " + Bool(o.Listed) + "; ob_hung := " + Bool(o.Hung) + "; ob_running := " + N(uint64(o.Running)) + "; ob_dup := " + map[string]string{"None": "None", "Some true": "(Some true)", "Some false": "(Some false)"}[o.Dup] +
-		"; ob_insts := " + List(insts) + "; ob_foreign := " + List(foreign)
+		"; ob_insts := " + List(insts) + "; ob_foreign := " + List(foreign) + "; ob_byprefix := " + List(byprefix) + "; ob_sibs := " + List(sibs)
 }
 
 func obsTerm(o Obs) string {
@@ -614,7 +699,7 @@ func obsTerm(o Obs) string {
 // well-formedness of a script (applied to generated, corpus and replay inputs alike)
 
 func removes(k string) bool {
-	return k == "run" || k == "runif" || k == "cancel" || k == "cancelif" || k == "ctx" || k == "resched"
+	return k == "run" || k == "runif" || k == "cancel" || k == "cancelif" || k == "cancelall" || k == "ctx" || k == "resched"
 }
 
 // firstClaim: before this instant the job is certainly in the table.
@@ -678,6 +763,16 @@ func normalise(sc Script) Script {
 	if sc.Kind != "periodic" {
 		sc.Ticks = 0
 		sc.RtErr = false
+	}
+	// CancelJobs is called with a prefix of the job's name
+	if sc.Prefix != "-" && !strings.HasPrefix(jobName, sc.Prefix) {
+		sc.Prefix = ""
+	}
+	if sc.Sibs < 0 || sc.Real {
+		sc.Sibs = 0
+	}
+	if sc.Sibs > len(sibMatching) {
+		sc.Sibs = len(sibMatching)
 	}
 	if sc.Real {
 		// one unit = 10..100 ms of real time; no concurrent cancellation of a caller's context (nothing to
@@ -1121,7 +1216,7 @@ func applyTable(svc tableSched, ops []TOp, fire func(ctx context.Context, name s
 	ctx, cancel := context.WithCancel(context.Background())
 	defer cancel()
 	used := map[int]bool{}
-	nm := func(i int) string { return fmt.Sprintf("n%d", i) }
+	nm := tableName
 	for _, op := range ops {
 		// the caller's context of everything but ScheduleJob (whose context is the job's own)
 		cctx, release := ctx, func() {}
@@ -1170,14 +1265,15 @@ func applyTable(svc tableSched, ops []TOp, fire func(ctx context.Context, name s
 		case "cancelall":
 			svc.CancelJobs(cctx, "n")
 			outs = append(outs, App("TCode", "Nil"))
+		case "cancelpre":
+			svc.CancelJobs(cctx, op.Prefix)
+			outs = append(outs, App("TCode", "Nil"))
 		case "exists":
 			outs = append(outs, App("TBool", Bool(svc.JobExists(cctx, nm(op.Name)))))
 		case "list":
 			var ids []int
 			for _, s := range svc.ListJobs(cctx) {
-				var i int
-				fmt.Sscanf(s, "n%d", &i)
-				ids = append(ids, i)
+				ids = append(ids, tableID(s))
 			}
 			sort.Ints(ids)
 			items := make([]string, 0, len(ids))
@@ -1196,6 +1292,21 @@ func applyTable(svc tableSched, ops []TOp, fire func(ctx context.Context, name s
 		runs = append(runs, Pair(N(uint64(j)), N(uint64(c.Load()))))
 	}
 	return outs, runs, dupSeen && runSeen && reuseSeen
+}
+
+// Names of the sequential histories: two families ("na<i>" for even i, "nb<i>" for odd i) under the common
+// prefix "n", so that CancelJobs can be called with prefixes that all, some, one or none of the names have.
+const tableUniverse = 12
+
+func tableName(i int) string { return fmt.Sprintf("n%c%d", 'a'+rune(i%2), i) }
+
+func tableID(s string) int {
+	for i := 0; i <= tableUniverse; i++ {
+		if tableName(i) == s {
+			return i
+		}
+	}
+	return 99
 }
 
 // MockTable: the same history on harness/mocks.RecScheduler, with RunInline and without.
@@ -1250,6 +1361,15 @@ func tableTerm(ops []TOp) string {
 			items = append(items, App("TExists", N(uint64(op.Name))))
 		case "cancelall":
 			items = append(items, "TCancelAll")
+		case "cancelpre":
+			// the names of the universe that have the prefix: the specification of "prefix", computed here from the strings
+			var set []string
+			for i := 0; i <= tableUniverse; i++ {
+				if strings.HasPrefix(tableName(i), op.Prefix) {
+					set = append(set, N(uint64(i)))
+				}
+			}
+			items = append(items, App("TCancelSet", List(set)))
 		default:
 			items = append(items, "TList")
 		}
@@ -1585,6 +1705,22 @@ func TestC02(t *testing.T) {
 		sc, tags := genExit(erng.Fork(), i)
 		ins = append(ins, Input{Script: &sc, Tags: tags})
 	}
+	// CancelJobs(prefix) at every position relative to the instances of a periodic job (and of a one-off job),
+	// other jobs of the same scheduler with and without the prefix: on top again, from its own stream
+	prng := rng.Fork()
+	np := n / 6
+	if n > 0 && np < 20 {
+		np = 20
+	}
+	for i := 0; i < np; i++ {
+		sc, tags := genPrefix(prng.Fork(), i)
+		ins = append(ins, Input{Script: &sc, Tags: tags})
+	}
+	// sequential histories with CancelJobs on prefixes that some names have and others do not
+	trng := rng.Fork()
+	for i := 0; i < np/5; i++ {
+		ins = append(ins, Input{Table: genPrefixTable(trng.Fork()), Tags: []string{"table", "table:prefixes"}})
+	}
 	// decide repetitions and tags
 	work := make([]Work, 0, len(ins))
 	for _, in := range ins {
@@ -1739,6 +1875,10 @@ func TestC02(t *testing.T) {
 				if op.Cctx != "" {
 					col.Count("table-caller-ctx:" + op.Cctx)
 				}
+				if op.Op == "cancelpre" {
+					col.Count("table-prefix:" + op.Prefix)
+					tkey += fmt.Sprintf(" prefix/%q", op.Prefix)
+				}
 				if op.Cctx != "" || op.Op == "fire" {
 					tkey += fmt.Sprintf(" %s/%s", op.Op, op.Cctx) // the caller's context and Fire are not part of the Coq term
 				}
@@ -1798,6 +1938,15 @@ func TestC02(t *testing.T) {
 			ctor, key = "Real", fmt.Sprintf("real/%d:%s", sc.Unit, key)
 			col.Count("real-time-script:" + sc.Kind)
 			col.Count(fmt.Sprintf("real-time-distinct-outcomes:%d", len(observed)))
+		}
+		if sc.Sibs > 0 || sc.Prefix != "" {
+			col.Count(fmt.Sprintf("other-jobs-with-the-prefix:%d", sc.Sibs))
+			key += fmt.Sprintf(" sibs%d/%q", sc.Sibs, sc.Prefix) // the other jobs and the prefix are not part of the Coq script
+		}
+		for _, c := range sc.Calls {
+			if c.Kind == "cancelall" {
+				key += fmt.Sprintf(" %d/byprefix", c.At)
+			}
 		}
 		if sc.RtErr {
 			col.Count("periodic:runtimeFunc-error-exit")
